@@ -291,3 +291,13 @@ Theorem c11_keep_model_exact :
       (pset (layers ++ [toml_name n]) (File m (Doc (Toml.TTbl []))) s, Ok tt).
 Proof. exact LV.KeepModelFacts.keep_model_exact. Qed.
 Print Assumptions c11_keep_model_exact.
+
+(* the same compared term on a layer that does not exist yet: exactly a fresh directory and a fresh document appear *)
+Theorem c11_keep_model_fresh :
+  forall layers n s res post,
+    valid_name n = true -> LV.Determinism.simple_dir s layers ->
+    pget (layers ++ [n]) s = None -> pget (layers ++ [toml_name n]) s = None ->
+    LV.Checks.C11Agree.keep_model (LV.Checks.C11Hold.mkCase s layers n LV.Checks.C11Hold.OpKeep res post) =
+      (pset (layers ++ [toml_name n]) (File mode_file_default (Doc (Toml.TTbl []))) (pset (layers ++ [n]) (Dir mode_dir_default) s), Ok tt).
+Proof. exact LV.KeepModelFacts.keep_model_fresh. Qed.
+Print Assumptions c11_keep_model_fresh.
